@@ -2,8 +2,8 @@ package eng
 
 import (
 	"go/token"
-	"strings"
 	"go/types"
+	"strings"
 	"sync"
 
 	"golang.org/x/tools/go/ssa"
